@@ -36,6 +36,7 @@ class Site:
     what: str
     ok: bool
     rule: str = ""
+    props: tuple = ()          # FRAME-assigns: the properties served by the contract whose frame the site belongs to
 
     def name(self, n):
         return f"B.{self.cls}.{self.family}.{self.func}#{n}"
@@ -183,6 +184,7 @@ class Analyzer:
                 self.add("POOL-pure", "kernel", f"OptimizationAbstract.{fname}", f, f"callable run by pool workers: {fname}", not bad,
                          "writes nothing of the optimizer" if not bad else
                          "writes optimizer state (" + ", ".join(bad[:3]) + "): racy under a thread pool, lost in a process pool", base_ci.file)
+        self.frame_assigns()
         # kernel modules: evaluation chain and randomness
         for modname in ("pyvolutionary.helpers", "pyvolutionary.models", "pyvolutionary.abstract", "pyvolutionary.utils"):
             mi = self.src.modules.get(modname)
@@ -774,6 +776,52 @@ class Analyzer:
             self.add("POOL-pure", ci.name, f"{ci.name}.{fname}", f, f"callable submitted to the pool: {fname}", not bad,
                      "writes nothing of the optimizer (assigns only fresh objects and the RNG)" if not bad else
                      "writes optimizer state (" + ", ".join(bad[:3]) + "): racy under a pool, lost in a process pool", ci.file)
+
+    # ---- FRAME-assigns: the `assigns` clause of every verified contract, checked on the store sites of the real body -----------------
+    def frame_assigns(self):
+        """Every store whose target is rooted at `self` in a function under contract must be covered by the contract's `assigns`
+        clause (`self.f`, `content(self.f)`): the syntactic half of the frame condition (it also covers attributes the contracts
+        do not declare - new state in a helper is a write outside its frame).  Functions whose contract states its frame
+        as a postcondition over named fields (optimize) and constructors are left to their VCs."""
+        try:
+            import contracts  # noqa: F401
+            from .contract import REG
+        except Exception:  # noqa
+            return
+        for q, c in sorted(REG.contracts.items()):
+            if not c.verify or q.endswith(".__init__") or q.endswith(".optimize"):
+                continue
+            found = self.src.function(q)
+            if found is None:
+                continue
+            fdef, mi, ci = found
+            allowed = set()
+            for a in c.assigns:
+                a = a.strip()
+                if a.startswith("content(") and a.endswith(")"):
+                    a = a[len("content("):-1]
+                if a.startswith("self."):
+                    allowed.add(a.split(".")[1])
+            sites = []
+            for node in ast.walk(fdef):
+                for tgt, kind in _store_targets(node):
+                    p_ = _root(tgt)
+                    if p_[:1] == ["self"] and len(p_) >= 2:
+                        sites.append((tgt, p_[1]))
+                if isinstance(node, ast.Call) and isinstance(node.func, ast.Attribute) and node.func.attr in MUTATORS:
+                    p_ = _root(node.func.value)
+                    if p_[:1] == ["self"] and len(p_) >= 2:
+                        sites.append((node, p_[1]))
+            short = q.replace("pyvolutionary.", "")
+            if not sites:
+                self.sites.append(Site("FRAME-assigns", "kernel", short, mi.file, fdef.lineno, "no store rooted at self", True,
+                                       "the body writes nothing of self", tuple(c.properties)))
+            for node, fld in sites:
+                ok = fld in allowed
+                self.sites.append(Site("FRAME-assigns", "kernel", short, mi.file, getattr(node, "lineno", fdef.lineno),
+                                       f"store to self.{fld}", ok,
+                                       "covered by the contract's assigns clause" if ok else
+                                       f"self.{fld} is written but the contract's frame is assigns={sorted(c.assigns)}", tuple(c.properties)))
 
     # ---- POP-own ---------------------------------------------------------------------------------------------------------------------------------------
     def pop_own(self, ci):
